@@ -1,8 +1,6 @@
 package sym
 
 import (
-	"go/token"
-
 	"golang.org/x/tools/go/ssa"
 
 	"gvc/smt"
@@ -33,9 +31,3 @@ func (e *Engine) selectOp(st *State, fr *Frame, x *ssa.Select, k func(*State, Va
 	e.fail("select not supported yet at %s", e.pos(x.Pos()))
 }
 
-// externIntrinsic: library functions with built-in semantics (fmt.Errorf, errors.New, ...).
-func (e *Engine) externIntrinsic(st *State, fr *Frame, fn *ssa.Function, args []Value, pos token.Pos) (Value, bool) {
-	return nil, false
-}
-
-func (e *Engine) errFacts(st *State, t *smt.Term, wrapped *smt.Term, ce *StructV) {}
